@@ -18,6 +18,11 @@ def canon(node):
         if n.is_term():
             out[id(n)] = (n.symbol.name, n.start_position, n.end_position)
             continue
+        if not isinstance(n.children, (list, tuple)):
+            # a malformed tree is a finding about the code under test, not a harness error
+            from .core import Violation
+            raise Violation("non-terminal-node-without-a-children-list", node=n.symbol.name,
+                            children=repr(n.children)[:100], tree_class=type(node).__name__)
         kids = list(n.children)
         if not done:
             stack.append((n, True))
